@@ -1,6 +1,6 @@
 //! Models of PDF types
 
-use std::collections::HashMap;
+use std::collections::{HashMap, HashSet};
 use datasize::DataSize;
 
 use crate as pdf;
@@ -1110,6 +1110,11 @@ pub struct NameTree<T> {
 }
 impl<T: Object+DataSize> NameTree<T> {
     pub fn walk(&self, r: &impl Resolve, callback: &mut dyn FnMut(&PdfString, &T)) -> Result<(), PdfError> {
+        self.walk_nodes(r, callback, &mut HashSet::new())
+    }
+    // `seen` holds the nodes already descended into: a node reachable twice (a cycle, or kids shared
+    // between nodes) is not a tree and would otherwise recurse without bound
+    fn walk_nodes(&self, r: &impl Resolve, callback: &mut dyn FnMut(&PdfString, &T), seen: &mut HashSet<PlainRef>) -> Result<(), PdfError> {
         match self.node {
             NameTreeNode::Leaf(ref items) => {
                 for (name, val) in items {
@@ -1118,8 +1123,11 @@ impl<T: Object+DataSize> NameTree<T> {
             }
             NameTreeNode::Intermediate(ref items) => {
                 for &tree_ref in items {
+                    if !seen.insert(tree_ref.get_inner()) {
+                        bail!("name tree node {:?} is reachable more than once", tree_ref.get_inner());
+                    }
                     let tree = r.get(tree_ref)?;
-                    tree.walk(r, callback)?;
+                    tree.walk_nodes(r, callback, seen)?;
                 }
             }
         }
@@ -1276,6 +1284,10 @@ impl<T: ObjectWrite> ObjectWrite for NumberTree<T> {
 }
 impl<T: Object+DataSize> NumberTree<T> {
     pub fn walk(&self, r: &impl Resolve, callback: &mut dyn FnMut(i32, &T)) -> Result<(), PdfError> {
+        self.walk_nodes(r, callback, &mut HashSet::new())
+    }
+    // see NameTree::walk_nodes
+    fn walk_nodes(&self, r: &impl Resolve, callback: &mut dyn FnMut(i32, &T), seen: &mut HashSet<PlainRef>) -> Result<(), PdfError> {
         match self.node {
             NumberTreeNode::Leaf(ref items) => {
                 for &(idx, ref val) in items {
@@ -1284,8 +1296,11 @@ impl<T: Object+DataSize> NumberTree<T> {
             }
             NumberTreeNode::Intermediate(ref items) => {
                 for &tree_ref in items {
+                    if !seen.insert(tree_ref.get_inner()) {
+                        bail!("number tree node {:?} is reachable more than once", tree_ref.get_inner());
+                    }
                     let tree = r.get(tree_ref)?;
-                    tree.walk(r, callback)?;
+                    tree.walk_nodes(r, callback, seen)?;
                 }
             }
         }
